@@ -298,17 +298,6 @@ pub fn compare(ont: &Ontology, exp: &Expected, focus: &[Focus]) -> Vec<String> {
                                 diff!(d, "{} {x}: direct term {t} does not resolve", k.name());
                             }
                         }
-                        // the same direct terms as an HpoSet (another door to the same value); only when every id resolves
-                        if hpos.iter().all(|t| ont.hpo(*t).is_some()) {
-                            let as_set: Option<BTreeSet<u32>> = match k {
-                                Kind::Gene => ont.gene(&GeneId::from(*x)).map(|g| g.to_hpo_set(ont).iter().map(|t| t.id().as_u32()).collect()),
-                                Kind::Omim => ont.omim_disease(&OmimDiseaseId::from(*x)).map(|g| g.to_hpo_set(ont).iter().map(|t| t.id().as_u32()).collect()),
-                                Kind::Orpha => ont.orpha_disease(&OrphaDiseaseId::from(*x)).map(|g| g.to_hpo_set(ont).iter().map(|t| t.id().as_u32()).collect()),
-                            };
-                            if as_set.as_ref() != Some(&er.hpos) {
-                                diff!(d, "{} {x}: to_hpo_set() holds {:?}, expected the direct terms {:?}", k.name(), as_set, er.hpos);
-                            }
-                        }
                     }
                 }
             }
